@@ -36,7 +36,7 @@ func supTop(env *ty.Env, t *ty.Ty, seen map[int]bool) bool {
 		}
 		return supTop(env, r, seen)
 	case ty.Struct:
-		if t.K != ty.Named && env.CanEqual(t) {
+		if t.K != ty.Named && canEqualM(env, t) {
 			return true
 		}
 		for _, f := range u.Fields {
@@ -53,8 +53,31 @@ func supTop(env *ty.Env, t *ty.Ty, seen map[int]bool) bool {
 	return false
 }
 
+// canEqualM mirrors plugin/equal's canEqual: comparable with ==, and no type with its own Equal method inside
+// (such a type is compared with the method, so a struct or array holding it is compared part by part).
+func canEqualM(env *ty.Env, t *ty.Ty) bool {
+	if t.K == ty.Named && strings.Contains(env.Decls[t.N].Methods, "E") {
+		return false
+	}
+	u := env.Under(t)
+	switch u.K {
+	case ty.Basic:
+		return true
+	case ty.Struct:
+		for _, f := range u.Fields {
+			if !canEqualM(env, f.T) {
+				return false
+			}
+		}
+		return true
+	case ty.Array:
+		return canEqualM(env, u.Elem)
+	}
+	return false
+}
+
 func supField(env *ty.Env, t *ty.Ty, seen map[int]bool) bool {
-	if env.CanEqual(t) {
+	if canEqualM(env, t) {
 		return true
 	}
 	u := env.Under(t)
